@@ -345,6 +345,36 @@ CHECKS["C19"] = dict(
     technique="TLA+ exact linear-map comparison executed by TLC (translation validation of the real PSyAD output)",
     design_ref="DESIGN.md section 4 C19", engine="FortranSem")
 
+CHECKS["C03"] = dict(
+    level="exploration",
+    text=("970 programs (300 generated with use/only/rename, parameter chains, module variables, derived "
+          "types, interfaces, several routines, code blocks; 150 with nested scopes holding clashing "
+          "symbols; 711 Fortran files of the repository) are written, re-read and written three times by the "
+          "real reader/writer; each text is itemised into a program skeleton and Trace_RoundTrip.tla decides "
+          "NoLoss, NoDup, SameOrder, TextStable (w2 = w1, w3 = w2) and Reread per case. RoundTrip.tla (a stable "
+          "writer; two broken writers are refuted on every run) is the design-level model."),
+    note=("'Same text' is a comparison of implementation outputs; the specification contributes the item-level "
+          "loss/duplication/order clauses and the family - hence level exploration. This FortranReader drops "
+          "comments, so stability is judged from the first written text onward. Two genuine defect shapes in "
+          "findings.d/C03.json."),
+    technique="TLA+ skeleton spec + TLC trace acceptance of three successive real round trips",
+    design_ref="DESIGN.md section 4 C03", engine="RoundTrip")
+CHECKS["C04"] = dict(
+    level="model_checking",
+    text=("DeclOrder.tla: a written unit as Use/Declare(name, kind, deps)/Reference events per scope with host "
+          "association; invariants DeclaredOnce, DeclaredBeforeDependent, EveryReferenceResolves, NoCapture "
+          "(a topological writer satisfies them, an any-order writer is refuted). 1 119 written units - "
+          "generated declaration shapes, nested-scope merges, histories (length 1-3) of accepted "
+          "transformations that add symbols over the C05/C06/C07 families, LFRic and GOcean PSy layers - are "
+          "parsed with fparser2 (not PSyclone's frontend) into events and validated by TLC one event at a "
+          "time; NoCapture uses symbol identities obtained by renaming every symbol and aligning the texts."),
+    note=("Trusted: the fparser2-based event extraction (unclassifiable names make the unit unsupported; wildcard "
+          "imports make unresolved names 'possibly imported', counted). 'Compiles' is modelled by "
+          "EveryReferenceResolves; calibrated against gfortran -fimplicit-none on 90 units. One genuine defect "
+          "shape in findings.d/C04.json."),
+    technique="TLA+ declaration-order spec + TLC trace validation of events extracted from the real written code",
+    design_ref="DESIGN.md section 4 C04, F.10", engine="DeclOrder")
+
 NOT_YET = {}
 
 ALL = [f"C{i:02d}" for i in range(1, 30)]
